@@ -12,6 +12,10 @@ use serde_json::{json, Map, Value};
 
 pub const SUBST: &str = "ABCDEFGHIJKLMNOPQRSTUVWXYZabcdefghijklmnopqrstuvwxyz0123456789-_.~=+/\"\\ ";
 
+thread_local! {
+    static CONTROL_AFTER: std::cell::RefCell<std::collections::HashMap<(usize, String), u32>> = std::cell::RefCell::new(Default::default());
+}
+
 #[derive(Clone)]
 pub struct Base {
     pub id: usize,
@@ -92,7 +96,30 @@ fn must_reject(b: &Base, jwt: &str, what: &str, key: DecodingKey, l: &mut Local)
         let (aud, nonce) = expectation(&b.cfg, with);
         let out = drive::verify(&pres, key.clone(), aud, nonce, b.cfg.fmt);
         match &out {
-            Out::Err { .. } => l.outcome("tampered_rejected"),
+            Out::Err { .. } => {
+                l.outcome("tampered_rejected");
+                // from the state this rejection left behind, the honest presentation must still be accepted
+                // (done for every distinct rejection path of this base — error variant and message class — up to
+                // 40 times each and always for the structural catalogue: what a rejection leaves behind depends on
+                // the path taken, not on which of 72 characters was substituted)
+                let path_key = (b.id, out.site());
+                let seen = CONTROL_AFTER.with(|m| {
+                    let mut m = m.borrow_mut();
+                    let c = m.entry(path_key).or_insert(0u32);
+                    *c += 1;
+                    *c
+                });
+                if with && (seen <= 40 || what.starts_with("structural") || what.starts_with("alg")) {
+                    l.outcome("control_reverified_after_rejection");
+                    let honest = b.parts.serialize(b.cfg.fmt);
+                    let again = drive::verify(&honest, key.clone(), aud, nonce, b.cfg.fmt);
+                    if !matches!(&again, Out::Ok(c) if c == &b.expected) {
+                        let kind = what.split(':').next().unwrap_or(what).to_string();
+                        let case = json!({"kind": "c02_after", "base": b.id, "base_cfg": b.cfg.to_json(), "what": what, "jwt": jwt, "presentation": pres, "honest": honest});
+                        l.violation(Violation::new("verify", if again.is_panic() { "panic" } else { "honest_rejected_after_tampered" }, "c02_control_after_rejection", kind, format!("after rejecting {what}: honest presentation gives {}", again.describe()), case));
+                    }
+                }
+            }
             o => {
                 let class = if o.is_panic() { "panic" } else { "ok_where_err_required" };
                 let kind = what.split(':').next().unwrap_or(what).to_string();
@@ -564,6 +591,18 @@ pub fn replay(case: &Value) -> Vec<Violation> {
                 let what = case["what"].as_str().unwrap_or("");
                 let kind = what.split(':').next().unwrap_or(what).to_string();
                 l.violation(Violation::new("verify", if out.is_panic() { "panic" } else { "ok_where_err_required" }, if out.is_panic() { out.site() } else { format!("c02_accepted:{kind}") }, kind, out.describe(), case.clone()));
+            }
+        }
+        "c02_after" => {
+            let cfg = Cfg::from_json(&case["base_cfg"]);
+            let (aud, nonce) = expectation(&cfg, true);
+            let key = keys::issuer_dec(cfg.alg, 0);
+            let _ = drive::verify(case["presentation"].as_str().unwrap(), key.clone(), aud, nonce, cfg.fmt);
+            let again = drive::verify(case["honest"].as_str().unwrap(), key, aud, nonce, cfg.fmt);
+            if !again.is_ok() {
+                let what = case["what"].as_str().unwrap_or("");
+                let kind = what.split(':').next().unwrap_or(what).to_string();
+                l.violation(Violation::new("verify", if again.is_panic() { "panic" } else { "honest_rejected_after_tampered" }, "c02_control_after_rejection", kind, again.describe(), case.clone()));
             }
         }
         "c02_key" | "c02_control" => {
